@@ -436,6 +436,8 @@ def _lscr_fam(fn, *args):
     return "lscr", getattr(lc, fn)(*args), {"lnam": lc.build_lnam([b"test", b"x"]).hex()}
 
 def _fam_lscr_shared_locals(n): return _lscr_fam("fam_shared_locals", n, 20 * n)
+def _fam_lscr_shared_args(n): return _lscr_fam("fam_shared_table", n, 20 * n, "args")
+def _fam_lscr_shared_globs(n): return _lscr_fam("fam_shared_table", n, 20 * n, "globs")
 def _fam_lscr_shared_locals_cancel_args(n): return _lscr_fam("fam_shared_locals_cancel", n, 20 * n, "args")
 def _fam_lscr_shared_locals_cancel_globs(n): return _lscr_fam("fam_shared_locals_cancel", n, 20 * n, "globs")
 def _fam_lscr_shared_code(n): return _lscr_fam("fam_shared_code", n, 10 * n)
@@ -467,6 +469,7 @@ def _fam_fmap_shared(n):
 FAMILIES_SCALING = dict(vwsc_frames=(_fam_vwsc_frames, 300), vwsc_overrun=(_fam_vwsc_overrun, 150), vwsc_rewrites=(_fam_vwsc_inrange_rewrites, 150),
                         fmap_fonts=(_fam_fmap_fonts, 400), fmap_shared=(_fam_fmap_shared, 400),
                         lscr_shared_locals=(_fam_lscr_shared_locals, 10), lscr_shared_code=(_fam_lscr_shared_code, 10),
+                        lscr_shared_args=(_fam_lscr_shared_args, 10), lscr_shared_globs=(_fam_lscr_shared_globs, 10),
                         lscr_shared_locals_cancel_args=(_fam_lscr_shared_locals_cancel_args, 10), lscr_shared_locals_cancel_globs=(_fam_lscr_shared_locals_cancel_globs, 10),
                         lscr_shared_consts=(_fam_lscr_shared_consts, 40), vwlb_zigzag=(_fam_vwlb_zigzag, 1500), lscr_nested=(_fam_lscr_nested, 100), riff=(_fam_riff, 300), mmap=(_fam_mmap, 300), cas=(_fam_cas, 2000), key=(_fam_key, 500), locate=(_fam_locate, 500),
                         lscr_straight=(_fam_lscr_straight, 250), lscr_loops=(_fam_lscr_loops, 120), lscr_ifs=(_fam_lscr_ifs, 150))
